@@ -695,7 +695,7 @@ def main(argv):
         raise MachineryError("too few inputs enumerated")
     if "--replay" not in argv:
         items = list(enumerate(items))
-    round_size = 48000
+    round_size = 36000
     states = 0
     wall = 0.0
     total = 0
